@@ -650,7 +650,7 @@ impl Scenario for Ids {
                     }
                 }
                 for c in chans.into_iter().flatten() {
-                    std::mem::forget(c);
+                    ctx.forget(c);
                 }
                 let r = conn.close();
                 ctx.log(format!("close -> {}", res(&r)));
